@@ -37,12 +37,16 @@ Compare(e, i) ==
   ELSE IF i.resph # e.resph THEN <<"C41.response_headers", HeaderDiff(e.resph, i.resph)>>
   ELSE <<>>
 
+\* scenario feature that explains a refusal of the whole file (signature only)
+FailCause(m) == IF \E j \in 1..Len(m.exp) : m.exp[j].c.reqh = "latin1_value" THEN "non_utf8_header_value"
+                ELSE "no_unusual_input"
+
 Clause(m, ev) ==
   CASE ev.k = "imp" -> IF ev.i # m.nimp + 1 \/ ev.i > Len(m.exp) THEN <<"C41.order_or_count">>
                        ELSE Compare(m.exp[ev.i], ev)
     [] ev.k = "done" -> IF ev.nimp # ev.nexp \/ m.nimp # ev.nexp THEN <<"C41.order_or_count">> ELSE <<>>
-    [] ev.k = "import_failed" -> <<"C41.import_failed", ev.exc>>
-    [] ev.k = "export_failed" -> <<"C41.export_failed", ev.exc>>
+    [] ev.k = "import_failed" -> <<"C41.import_failed", ev.exc, FailCause(m)>>
+    [] ev.k = "export_failed" -> <<"C41.export_failed", ev.exc, FailCause(m)>>
     [] OTHER -> <<>>
 
 MonStep(m, ev) ==
